@@ -35,6 +35,11 @@ TRUSTED = [
     "field dtype / backing) nor on earlier calls, and that measure_list leaves its arguments unchanged, is observed by the harness "
     "(oracle keys definition:*, repeat:*, inputs-mutated:*), not proved; the translator rejects vocabulary / numbers access and "
     "np.require(..., requirements=) in the metric bodies",
+    "the model has no rank column and no object identity: that an explicit rank column (gaps, offset, ties) does not change which "
+    "entries are the first k, and that a metric object reused over short-lived lists returns what a new one returns, is observed "
+    "(definition:*, reuse:*), not proved; for lists longer than 64 entries the correspondence cases evaluated in Coq cover hit, "
+    "precision, recall, reciprocal rank and popularity only (sums of hundreds of exact powers do not fit un-normalised Q), RBP / "
+    "DCG / nDCG of long lists are compared with the Python definition (exact Fractions) alone",
 ]
 ASSUMPTIONS = [
     "recommendation lists and test lists have distinct item ids (pandas reindex rejects duplicate test ids)",
@@ -54,7 +59,13 @@ RULE = ("structured generator: ordered recommendation list of 0-14 ids and a tes
         "torch, Python list, via from_df or from_arrow; recommendations with or without a score field.  Every case measures 10-12 "
         "metric instances in a call sequence: each on lists never used before, then all on ONE pair of list objects three times over, "
         "with an ideal ranking, an exchanged ranking and another test list measured in between; every call is compared with the "
-        "definition and the lists are compared with never-measured twins afterwards.  "
+        "definition and the lists are compared with never-measured twins afterwards.  Ordered recommendation lists carry the "
+        "implicit ranks or an EXPLICIT rank column (1..n spelled out, gaps, not starting at 1, ties: the first k recommendations "
+        "are the first k entries); a few LONG lists per run (8 quick / 40 thorough; 150-2400 entries, longer than an integer "
+        "constant >= 64 found in metrics/ranking/*.py if there is one, relevant items near the top and deep in the list, patience "
+        "0.9-0.999, large or no cutoff; Coq evaluates the counting metrics of these, the Python definition all); in a quarter of "
+        "the cases the metric OBJECTS then measure seven further pairs of lists that are created for the call and dropped after "
+        "it (recycled addresses), each value compared with a metric object made for that call and with the definition.  "
         "non-trivial = ordered list of >= 3 recommendations with at least one relevant and one irrelevant item, >= 2 test items, "
         "no error outcome; distinct = by hash of the case")
 
@@ -156,13 +167,115 @@ def gen_case(rng, malformed=False, big=False):
              if recs[p] not in tg and recs[q] in tg]
     case["swap"] = list(rng.choice(pairs)) if pairs else None
     case["rep"] = gen_rep(rng.fork("rep"), case)
+    # one metric OBJECT measuring several short-lived pairs of lists (run_impl: _life)
+    case["life"] = rng.fork("life").chance(1, 4)
     return case
 
 
+HIGH_PATIENCE = [0.99, 0.999, 0.9, 0.995]
+_steer = None
+
+
+def steer_sizes():
+    """Integer constants >= 64 in metrics/ranking/*.py (depth limits, block sizes, table lengths): the long lists are made
+    longer than each of them, with relevant items on both sides."""
+    global _steer
+    if _steer is None:
+        import ast
+        found = set()
+        for f in sorted((common.SRC / "lenskit" / "metrics" / "ranking").glob("*.py")):
+            try:
+                tree = ast.parse(f.read_text())
+            except SyntaxError:
+                continue
+            for n in ast.walk(tree):
+                if isinstance(n, ast.Constant) and type(n.value) is int and 64 <= n.value <= 4000:
+                    found.add(n.value)
+        _steer = sorted(found)
+    return _steer
+
+
+def gen_long_case(rng):
+    """A LONG recommendation list (300-2000 items; longer than an integer constant of the metric sources if there is
+    one), relevant items near the top AND deep in the list, high patience, large or no cutoff."""
+    consts = steer_sizes()
+    c = rng.choice(consts) if consts and rng.chance(3, 4) else rng.choice([150, 256, 300, 512, 1000])
+    nrec = min(c + rng.randint(max(8, c // 8), max(16, c)), 2400)
+    nuni = nrec + 60
+    recs = rng.shuffle(list(range(1, nuni)))[:nrec]
+    deep = [recs[p] for p in sorted(rng.sample(list(range(c, nrec)), min(nrec - c, rng.randint(1, 6))))]
+    top = [recs[p] for p in rng.sample(list(range(0, min(c, nrec))), rng.randint(0, 5))]
+    out = rng.sample([i for i in range(1, nuni) if i not in set(recs)], rng.randint(0, 3))
+    test_ids = rng.shuffle(deep + top + out)
+    gstyle = rng.weighted([("half", 3), ("binaryish", 2)])
+    gains = [fjson(Fraction(rng.randint(0, 8), 2)) if gstyle == "half" else fjson(Fraction(rng.choice([0, 1, 1, 2])))
+             for _ in test_ids]
+    k = rng.weighted([(None, 3), (c + rng.randint(1, nrec - c), 3), (nrec + 5, 1), (rng.randint(2, c), 1)])
+    pat = rng.weighted([("high", 6), (None, 1), ("dyadic", 1)])
+    if pat == "high":
+        pat = fjson(frac_of_float(rng.choice(HIGH_PATIENCE)))
+    elif pat == "dyadic":
+        pat = rng.choice(["127/128", "1023/1024", "15/16"])
+    case = {
+        "recs": recs, "ordered": True, "test": [[i, g] for i, g in zip(test_ids, gains)], "has_gain": True,
+        "k": k, "patience": pat, "discount": rng.weighted([("log2", 4), ("ln", 1), ("sqrt", 1), ("table", 1)]),
+        "idkind": rng.weighted([("int", 3), ("str", 1)]), "relation": "long", "gstyle": gstyle, "malformed": False,
+        "nuni": nuni, "long": True,
+    }
+    tg = set(test_ids)
+    rel = [q for q in range(1, nrec) if recs[q] in tg and any(recs[p] not in tg for p in range(max(0, q - 40), q))]
+    case["swap"] = None
+    if rel:
+        q = rng.choice(rel)
+        case["swap"] = [rng.choice([p for p in range(max(0, q - 40), q) if recs[p] not in tg]), q]
+    case["rep"] = gen_rep(rng.fork("rep"), case)
+    case["life"] = rng.chance(1, 3)
+    return case
+
+
+def universe(case):
+    return UNIVERSE if not case.get("nuni") else list(range(1, case["nuni"]))
+
+
+def is_long(case):
+    return len(case["recs"]) > 64 or len(case["test"]) > 64
+
+
 UNIVERSE = list(range(1, 40))          # every id a generated list can contain (POOL and the thorough tier's extension)
-PLAIN_REP = {"style": "plain", "recs": "ids", "test": "ids", "vocab": None, "vocab2": None, "gdtype": "f64", "rscores": False}
+PLAIN_REP = {"style": "plain", "recs": "ids", "test": "ids", "vocab": None, "vocab2": None, "gdtype": "f64", "rscores": False,
+             "ranks": None}
 GDTYPES = [("f64", 4), ("f32w", 4), ("f32ro", 1), ("arrow32", 1), ("arrow64", 1), ("torch32", 1), ("list", 1),
            ("df32", 1), ("df64", 1), ("tbl32", 1), ("tbl64", 1)]
+
+
+def gen_ranks(rng):
+    """An EXPLICIT rank column for the ordered recommendation lists of the case (None = the implicit ranks 1..n), as a
+    first rank and a cycle of increments: the ranks 1..n spelled out, ranks with gaps (a post-filtered list), ranks not
+    starting at 1, ranks with ties.  "The first k recommendations" are the first k entries of the list."""
+    style = rng.weighted([(None, 5), ("one-to-n", 1), ("gaps", 3), ("offset", 1), ("ties", 1)])
+    if style is None:
+        return None
+    m = rng.randint(3, 7)
+    if style == "one-to-n":
+        return {"style": style, "first": 1, "inc": [1]}
+    if style == "gaps":
+        inc = [rng.choice([1, 1, 2, 3, 5]) for _ in range(m)]
+        if all(i == 1 for i in inc):
+            inc[rng.below(m)] = rng.randint(2, 4)
+        return {"style": style, "first": 1, "inc": inc}
+    if style == "offset":
+        return {"style": style, "first": rng.choice([0, 2, 3, 11]), "inc": [rng.choice([1, 1, 2]) for _ in range(m)]}
+    inc = [rng.choice([0, 1, 1]) for _ in range(m)]
+    inc[rng.below(m)] = 0
+    return {"style": style, "first": 1, "inc": inc}
+
+
+def rank_column(spec, n):
+    out, r = [], spec["first"]
+    for j in range(n):
+        out.append(r)
+        r += spec["inc"][j % len(spec["inc"])]
+    return out
 
 
 def gen_rep(rng, case):
@@ -178,6 +291,7 @@ def gen_rep(rng, case):
     rep["style"] = style
     rep["gdtype"] = rng.weighted(GDTYPES)
     rep["rscores"] = rng.chance(1, 3)
+    rep["ranks"] = gen_ranks(rng.fork("ranks"))
     if style == "plain":
         return rep
     st = lambda: rng.weighted([("idv", 2), ("numv", 1)])  # noqa: E731
@@ -206,7 +320,7 @@ def gen_rep(rng, case):
         if cand:
             unknown.update(rng.sample(cand, min(len(cand), rng.randint(1, 4))))
     unknown -= must
-    keys = [i for i in UNIVERSE if i not in unknown]
+    keys = [i for i in universe(case) if i not in unknown]
     if rng.chance(1, 2):
         keys = rng.shuffle(keys)                   # numbers are not in identifier order
     rep["vocab"] = keys
@@ -237,6 +351,10 @@ def gen_cases(rng, tier):
     out = []
     for j in range(n):
         out.append(gen_case(rng.fork(j), malformed=(j % 10 == 9), big=(tier != "quick" and j % 7 == 3)))
+    nl = 8 if tier == "quick" else 40
+    step = n // nl
+    for j in range(nl):                       # a few long lists per run, spread over the shards
+        out.insert(j * step + j, gen_long_case(rng.fork(("long", j))))
     return out
 
 
@@ -282,7 +400,10 @@ def _setup():
     import pyarrow as pa
     from lenskit.data import DatasetBuilder, ItemList, Vocabulary
     from lenskit.metrics import ranking as R
-    _TABLE = np.log2(np.arange(1, 65)) + 0.5
+    _TABLE = np.log2(np.arange(1, 4097)) + 0.5
+    import warnings
+    from lenskit.diagnostics import DataWarning
+    warnings.filterwarnings("ignore", category=DataWarning)   # "ranks do not begin with 1"
     _ready = True
 
 
@@ -328,7 +449,8 @@ def _snap(x):
 def _view(il, fields):
     """What a caller sees of an item list through its public interface."""
     out = {"len": len(il), "ordered": bool(il.ordered), "ids": il.ids().tolist(),
-           "vocab": None if il.vocabulary is None else id(il.vocabulary)}
+           "vocab": None if il.vocabulary is None else id(il.vocabulary),
+           "ranks": il.ranks().tolist() if il.ordered else None}
     for f in fields:
         a = il.field(f)
         out[f] = None if a is None else [np.asarray(a).dtype.str, np.asarray(a).tolist()]
@@ -390,6 +512,8 @@ class _Lists:
         if scores:
             cols["score"] = np.arange(len(ids), 0, -1).astype(np.float32) / 4
             fields.append("score")
+        if which == "recs" and rep.get("ranks") and (self.case["ordered"] if ordered is None else ordered):
+            cols["rank"] = np.array(rank_column(rep["ranks"], len(ids)), dtype=np.int32)
         if which == "test" and gd.startswith("df"):
             df = pd.DataFrame(cols)
             bufs["frame"] = df
@@ -438,7 +562,8 @@ class _Watched:
         return out
 
 
-def _instances(case):
+def _instances(case, pop=None):
+    """The metric objects of the case (`pop`: an already built MeanPopRank to use instead of building the data set again)."""
     k = case["k"]
     pat = {} if case["patience"] is None else {"patience": float(fparse(case["patience"]))}
     d = _discount(case["discount"])
@@ -463,6 +588,8 @@ def _instances(case):
             out.append(R.DCG(k, gain="rating" if s["graded"] else None, **dk))
         elif m == "ndcg":
             out.append(R.NDCG(k, gain="rating" if s["graded"] else None, **dk))
+        elif m == "pop" and pop is not None:
+            out.append(pop)
         elif m == "pop":
             p = case["pop"]
             b = DatasetBuilder()
@@ -494,12 +621,46 @@ def ideal_order(case):
 def alt_test(case):
     """Another test list for the same recommendations: the first test item replaced by an item that was not one."""
     tids = {i for i, _ in case["test"]}
-    extra = [i for i in UNIVERSE if i not in tids][:1]
+    extra = [i for i in universe(case) if i not in tids][:1]
     return [list(p) for p in case["test"][1:]] + [[i, "3/2"] for i in extra]
 
 
 def ideal_recs(case):
     return ideal_order(case) + [i for i in POOL if i not in {j for j, _ in case["test"]}][:2]
+
+
+def life_variants(case):
+    """(recommendation ids, test pairs) of the short-lived pairs of lists ONE metric object measures in a row."""
+    recs, test = list(case["recs"]), [list(p) for p in case["test"]]
+    rs = set(recs)
+    other = [[i, "1/1"] for i in universe(case) if i not in rs][:3]
+    return [(recs, test), (recs, alt_test(case)), (recs[1:] + recs[:1], list(reversed(test))[:-1] if len(test) > 1 else test),
+            (recs, other), (recs, test), (list(reversed(recs)), alt_test(case)), (recs, test[: max(1, len(test) // 2)])]
+
+
+def _life(case, L, ms):
+    """An evaluation loop: the metric objects `ms` (already used) measure pairs of lists that are created for the call
+    and dropped after it (so that addresses are recycled); each value is paired with that of a metric object made for
+    this one call."""
+    import gc
+    rows, hg, seen, recycled = [], [], set(), 0
+    spare = _instances(case)[-1] if "pop" in case else None
+    for j, (rids, tp) in enumerate(life_variants(case)):
+        if j % 2:
+            t = L.test(tp)[0]
+            r = L.recs(rids)[0]
+        else:
+            r = L.recs(rids)[0]
+            t = L.test(tp)[0]
+        recycled += id(t) in seen
+        seen.add(id(t))
+        hg.append(t.field("rating") is not None)
+        once = _instances(case, pop=spare)
+        rows.append([[_measure(m, r, t), _measure(f, r, t)] for m, f in zip(ms, once)])
+        del r, t, once
+        if j == 2:
+            gc.collect()
+    return {"rows": rows, "has_gain": hg, "recycled": recycled}
 
 
 def run_impl(case):
@@ -545,6 +706,8 @@ def run_impl(case):
     changed = r.changed() + t.changed()
     changed += [f"vocabulary {n}" for n, v, sn in zip(("recs", "test"), (L.vr, L.vt), L.vsnap) if v is not None and _snap(v) != sn]
     obs["seq_mut"] = [first, changed] if (changed or first) else None
+    if case.get("life"):
+        obs["life"] = _life(case, L, ms)
     # the discount as the configured function evaluates it
     n = max(len(case["recs"]), len(case["test"]), 1) + 3
     d = _discount(case["discount"])
@@ -605,9 +768,18 @@ def coq_term(case, obs):
     recs = f"{{| il_ordered := {cbool(case['ordered'])}; il_ids := {clist(case['recs'], cz)} |}}"
     t = ("{| tl_items := " + clist(case["test"], lambda e: f"({cz(e[0])}, {cq(fparse(e[1]))})")
          + f"; tl_has_gain := {cbool((obs.get('has_gain') or [case['has_gain']])[0])} |}}")
-    disc = "(tbl_disc " + clist(obs["disc"], lambda v: cq(fparse(v))) + ")"
-    ms = clist(metric_specs(case), lambda s: c_metric(case, s))
+    specs = metric_specs(case)
+    idx = list(range(len(specs)))
+    dvals = obs["disc"]
+    if is_long(case):
+        # sums of hundreds of exact rationals (powers of a 53-bit patience, float discounts) do not fit the kernel's
+        # un-normalised Q arithmetic: for long lists Coq evaluates the counting metrics, the Python definition all of them
+        idx = [j for j, s in enumerate(specs) if s["m"] in ("hit", "precision", "recall", "recip", "pop")]
+        dvals = dvals[:4]
+    disc = "(tbl_disc " + clist(dvals, lambda v: cq(fparse(v))) + ")"
+    ms = clist([specs[j] for j in idx], lambda s: c_metric(case, s))
     def agree(vals):
+        vals = [vals[j] for j in idx]
         ob = clist(vals, lambda ev: f"({cnat(ev[0])}, {copt(None if ev[1] is None else fparse(ev[1]), cq)})")
         return f"agree_all {tol} {disc} {k} {recs} {t} {ms} {ob}"
 
@@ -825,6 +997,16 @@ def oracle(case, obs):
         v.append((f"inputs-mutated:{where}", "after measuring every metric on one pair of list objects the inputs differ from identical "
                   "lists that were never measured" + (f" (first seen after {first[0]}, {first[1]})" if first else "") + ": "
                   + "; ".join(changed)[:600]))
+    if obs.get("life") and claimed:
+        lf = obs["life"]
+        for n, ((rids, tp), row, hgn) in enumerate(zip(life_variants(case), lf["rows"], lf["has_gain"])):
+            for s, (reused, once) in zip(specs, row):
+                key = mkey(s)
+                where = f"one metric object measuring short-lived lists, pair {n + 1}"
+                if reused != once and not (reused[0] == once[0] == 0 and _close(_num(reused), _num(once), 1e-12)):
+                    v.append((f"reuse:{key}", f"{key}: the metric object used before returned {reused}, a metric object made for "
+                                              f"this call {once} on the same two lists ({where})"))
+                v += _vs_definition(case, s, reused, rel, rids, where, test=tp, has_gain=hgn)
     if "pop" in case and claimed:
         q = pop_quantiles(case)
         got = {i: float(fparse(x)) for i, x in obs["item_ranks"]}
@@ -873,7 +1055,7 @@ def counters(case, obs):
     if len(set(gs)) < len(gs):
         yield "ties-in-gain"
     p = case["patience"]
-    yield "patience=" + ("default" if p is None else "0-or-1" if p in ("0/1", "1/1") else "dyadic")
+    yield "patience=" + ("default" if p is None else "0-or-1" if p in ("0/1", "1/1") else "dyadic" if p in DYADIC_PATIENCE else "other")
     if case["malformed"]:
         yield "malformed"
     for e in sorted({e for e, _ in obs["vals"]}):
@@ -886,6 +1068,21 @@ def counters(case, obs):
         yield "swap-candidate"
     yield f"recs-len={'0' if nr == 0 else '1-3' if nr <= 3 else '4-8' if nr <= 8 else '9+'}"
     rep = rep_of(case)
+    rk = rep.get("ranks")
+    yield "rank-column=" + (rk["style"] if rk and case["ordered"] else "implicit")
+    if rk and case["ordered"] and k and k < nr and rank_column(rk, nr)[k - 1] != k:
+        yield "rank-of-kth-entry-differs-from-k"
+    if is_long(case):
+        yield "long-list"
+        deep = [p for p, i in enumerate(case["recs"], 1) if i in tids and (not k or p <= k)]
+        if deep and max(deep) > 256:
+            yield "long-list:relevant-item-below-position-256-within-k"
+        if p and p not in ("0/1", "1/1") and fparse(p) >= Fraction(9, 10):
+            yield "long-list:high-patience"
+    if obs.get("life"):
+        yield "metric-object-reused-over-short-lived-lists"
+        if obs["life"]["recycled"]:
+            yield "metric-object-reused:test-list-address-recycled"
     yield "lists=" + rep["style"]
     yield "recs-stored=" + rep["recs"]
     yield "test-stored=" + rep["test"]
@@ -920,8 +1117,10 @@ def shrink(case, fails):
         d = {k: v for k, v in c.items() if k != drop}
         if fails(d):
             c = d
+    if c.get("life") and fails({**c, "life": False}):
+        c = {**c, "life": False}
     # the simplest representation that still fails
-    for edit in (lambda r: PLAIN_REP, lambda r: {**r, "gdtype": "f64"}, lambda r: {**r, "rscores": False},
+    for edit in (lambda r: PLAIN_REP, lambda r: {**r, "ranks": None}, lambda r: {**r, "gdtype": "f64"}, lambda r: {**r, "rscores": False},
                  lambda r: {**r, "style": "shared", "vocab2": None} if r["vocab2"] is not None or r["style"] == "copy" else r,
                  lambda r: {**r, "vocab": sorted(r["vocab"])} if r["vocab"] else r):
         cur = rep_of(c)
